@@ -723,7 +723,11 @@ func rulesC01(c *Ctx) {
 	tablesC01(c)
 	optionsC01(c)
 	// how operators group is part of the AST a text denotes
-	importRules(c, rulesC03, "C03.", "C01.grouping-", nil)
+	importRules(c, rulesC03, "C03.", "C01.grouping-", func(r string) bool {
+		// print-and-reparse clauses belong to C02/C03; the tree x / (-1 * a) that
+		// `x / -a` parses to denotes the right value
+		return r != "C03.operandshape"
+	})
 	escapesC01(c)
 	// a carriage return is a line break, not a character eater: a legal
 	// statement laid out with CR or CRLF must parse
